@@ -7,9 +7,9 @@
 //!                         + YaccGrammar::new_from_ast_with_validity_info
 //!           `L`           LRNonStreamingLexerDef::<DefaultLexerTypes<u32>>::from_str
 //!           `HS`          as `H0`, but on a thread with an 8 MiB stack (the size of a Linux main
-//!                         thread; the harness worker has 256 MiB) and printing only the class and
-//!                         the end position: probes for native-stack exhaustion, which aborts the
-//!                         process (the orchestrator then reports `CRASH`)
+//!                         thread; the harness worker has 256 MiB): probes for native-stack
+//!                         exhaustion, which aborts the process (the orchestrator then reports
+//!                         `CRASH`)
 //! result line:
 //!   H: `OK <pos> { E x<keyhex> <s> <e> <val>}*`  |  `ERRS <n> { X <kind> <nspans> {<s> <e>}*}*`
 //!      val = `F <0|1> <s> <e>` | `N <hexnum> <s> <e>` | `S x<hex> <s> <e>` | `U <ns>` | `C <ns> <ns>`
@@ -232,10 +232,7 @@ fn main() {
                 let t = src.clone();
                 let h = std::thread::Builder::new()
                     .stack_size(8 * 1024 * 1024)
-                    .spawn(move || match GrmtoolsSectionParser::new(&t, false).parse() {
-                        Ok((_, pos)) => format!("OK {}", pos),
-                        Err(es) => format!("ERRS {}", es.len()),
-                    })
+                    .spawn(move || run_header(&t, false))
                     .unwrap();
                 match h.join() {
                     Ok(s) => s,
